@@ -208,3 +208,5 @@ def run(ctx):
                            "relocated, so with any hole below the top live page the mark is too low and later allocations overwrite live pages",
                            "%s:%d" % (wc2.file, st[3]))
     ctx.floor("C28.5", "next_page_id assignments in write_vacuum_copy", n5, 1)
+    from .c18 import complete_walk_rule
+    complete_walk_rule(ctx, "C28.6")
